@@ -159,16 +159,16 @@ def r2(fx):
         kw = dict(version=v) if v else dict(symbol_count=None, version=None)
         if v is None:
             continue
-        res, rec = _run(fx, it, CONTENT, 'byte', 'iso-8859-1', fit_single=fit, version=v)
+        res, rec = _run(fx, it, CONTENT, 'byte', 'iso-8859-1', fit_single=fit, version=v, mask='5', error='q', boost_error=False, eci=True)
         e = rec['_encode']
         ok = isinstance(res, list) and len(res) == 1 and len(e) == 1 and e[0]['sa_info'] is None and e[0]['version'] == v \
-            and isinstance(e[0]['what'], tuple)
-        yield ob(f'message fits version {fit} <= requested {v}: one plain symbol of version {v}', ok, fn,
-                 got=[(x['version'], x['sa_info']) for x in e], want=[(v, None)])
-    res, rec = _run(fx, it, CONTENT * 3, 'byte', 'iso-8859-1', fit_single=9, version=5)
-    yield ob('message needs version 9 > requested 5: split into Structured Append symbols', isinstance(res, list) and
-             all(x['sa_info'] is not None and x['version'] == 5 for x in rec['_encode']) and len(res) > 1, fn,
-             got=(res if not isinstance(res, list) else len(res)), want='> 1 symbols with header')
+            and isinstance(e[0]['what'], tuple) and (e[0]['mask'], e[0]['error'], e[0]['boost_error'], e[0]['eci']) == (5, lv['Q'], False, True)
+        yield ob(f'message fits version {fit} <= requested {v}: one plain symbol of version {v} with the requested mask, level, boost flag, eci', ok, fn,
+                 got=[(x['version'], x['sa_info'], x['mask'], x['error'], x['boost_error'], x['eci']) for x in e], want=[(v, None, 5, lv['Q'], False, True)])
+    res, rec = _run(fx, it, CONTENT * 3, 'byte', 'iso-8859-1', fit_single=9, version=5, mask=3, boost_error=False)
+    yield ob('message needs version 9 > requested 5: split into Structured Append symbols, each with the requested mask / boost flag', isinstance(res, list) and
+             all(x['sa_info'] is not None and x['version'] == 5 and x['mask'] == 3 and x['boost_error'] is False for x in rec['_encode']) and len(res) > 1, fn,
+             got=(res if not isinstance(res, list) else [(x['version'], x['mask'], x['boost_error']) for x in rec['_encode']][:3]), want='> 1 symbols with header, mask 3')
     cases = [
         ('Micro version M3', dict(version='M3'), 'raises ValueError'),
         ('Micro version m1', dict(version='m1'), 'raises ValueError'),
